@@ -252,7 +252,7 @@ def _caller_body(where, stmts, obj, name, keep, children, handles, fixed_cls=Non
     """Walk the statements of one copy routine in order. Returns the CallerShape fields (without srcKind when the
     isinstance test is made by the caller of this routine). `fixed_cls`: name of a *parameter* that carries clsname."""
     sh = {"srcKind": None, "cls": None, "defaultsName": False, "dupGroup": "", "depth": ".deep",
-          "forwardsKeepId": False, "readdsProps": False, "returnsByName": False, "returnExpr": None}
+          "forwardsKeepId": False, "readdsProps": False, "returnsByName": False, "returnExpr": None, "srcAddr": None}
     clsvar = fixed_cls
     cls_lit = None
     groups = dict(handles)          # expression -> group name (literal) or ("var", clsvar)
@@ -278,12 +278,14 @@ def _caller_body(where, stmts, obj, name, keep, children, handles, fixed_cls=Non
                 and isinstance(st.value.value, str) and not copied and clsvar is None:
             clsvar, cls_lit = "clsname", st.value.value
         # --- src = "<cls>/<name of the source>" ------------------------------------------------------
-        elif s == "src = '{}/{}'.format(clsname, %s.name)" % obj and clsvar is not None and not copied:
+        # (a path: looked up from the group of the handle's `_parent`, see the receiver of the copy call below)
+        elif s == "src = '{}/{}'.format(clsname, %s.name)" % obj and clsvar is not None and not copied and not src_ok:
             src_ok = True
-        elif isinstance(st, ast.If) and _u(st.test) == "isinstance(%s._parent, Section)" % obj and not copied \
-                and [_u(x) for x in st.body] == ["src = '{}/{}'.format('sections', %s.name)" % obj] \
-                and [_u(x) for x in st.orelse] == ["src = '{}/{}'.format('metadata', %s.name)" % obj]:
+            sh["srcAddr"] = ".parentPath"
+        # --- src = the HDF5 object the handle of the source stands for ----------------------------------
+        elif s == "src = %s._h5group.group" % obj and not copied and not src_ok:
             src_ok = True
+            sh["srcAddr"] = ".object"
         # --- default name ---------------------------------------------------------------------------
         elif isinstance(st, ast.If) and not st.orelse and _u(st.test) == "not %s" % name \
                 and [_u(x) for x in st.body] == ["%s = str(%s.name)" % (name, obj)] and not copied:
@@ -317,13 +319,20 @@ def _caller_body(where, stmts, obj, name, keep, children, handles, fixed_cls=Non
             sh["dupGroup"] = groups[g]
         # --- the copy --------------------------------------------------------------------------------------
         elif isinstance(st, ast.Expr) and isinstance(st.value, ast.Call) \
-                and _u(st.value.func) == "%s._parent._h5group.copy" % obj and not copied:
+                and _u(st.value.func) in ("%s._parent._h5group.copy" % obj, "%s._h5group.copy" % obj) and not copied:
             c = st.value
             if c.args:
                 raise ExtractError("%s: positional arguments to H5Group.copy" % where)
             kw = {k.arg: _u(k.value) for k in c.keywords}
             if kw.get("source") != "src" or not src_ok:
-                raise ExtractError("%s: source path of the copy is not `<container>/<source name>`" % where)
+                raise ExtractError("%s: the source of the copy is neither `<container>/<source name>` nor the HDF5 "
+                                   "object of the source handle" % where)
+            # a path is resolved by h5py from the receiver's group: it must be the group of the handle's parent;
+            # an object is taken as it is (h5py ignores the receiver): the receiver is the handle's own group
+            by_parent = _u(c.func) == "%s._parent._h5group.copy" % obj
+            if by_parent != (sh["srcAddr"] == ".parentPath"):
+                raise ExtractError("%s: source `%s` handed to `%s`: this way of naming the source is not modelled"
+                                   % (where, sh["srcAddr"], _u(c.func)))
             if kw.get("dest") != "self._h5group" or kw.get("name") != name or kw.get("cls") != clsvar:
                 raise ExtractError("%s: arguments of H5Group.copy changed: %s" % (where, kw))
             if "shallow" in kw:
@@ -484,10 +493,10 @@ def _render_h5(sh):
 
 def _render_caller(sh):
     return ("{ srcKind := %s, cls := %s, defaultsName := %s, dupGroup := %s, depth := %s,\n"
-            "    forwardsKeepId := %s, readdsProps := %s, returnsByName := %s }" % (
+            "    forwardsKeepId := %s, readdsProps := %s, returnsByName := %s, srcAddr := %s }" % (
                 lean_str(sh["srcKind"]), lean_str(sh["cls"]), lean_bool(sh["defaultsName"]), lean_str(sh["dupGroup"]),
                 sh["depth"], lean_bool(sh["forwardsKeepId"]), lean_bool(sh["readdsProps"]),
-                lean_bool(sh["returnsByName"])))
+                lean_bool(sh["returnsByName"]), sh["srcAddr"]))
 
 
 DOC = {"fileCreateBlock": "File.create_block(copy_from=…)", "fileCopySection": "File.copy_section",
